@@ -81,6 +81,39 @@ var vsSpellings = map[int][]wire.MsgReject{
 	},
 }
 
+// Reject messages given as (wire reject code class, reason class) pairs,
+// m = (wc-1)*8 + rs (see SendTxProps.tla): the product of every code class
+// with every reason string pushtx/error.go lists, an unlisted and the empty
+// reason.
+var vsWireCodes = [][]wire.RejectCode{
+	{wire.RejectInvalid},
+	{wire.RejectNonstandard},
+	{wire.RejectInsufficientFee},
+	{wire.RejectDuplicate},
+	{wire.RejectMalformed, wire.RejectObsolete, wire.RejectDust, wire.RejectCheckpoint},
+}
+
+var vsReasons = [][]string{
+	{"txn-mempool-conflict", "18: txn-mempool-conflict"},
+	{"txn-already-in-mempool", "18: txn-already-in-mempool"},
+	{"txn-already-known", "18: txn-already-known"},
+	{"output 00ff:1 already spent by transaction 11ee in the memory pool", "already spent"},
+	{"already have transaction 00ff", "already have transaction in mempool 00ff"},
+	{"transaction already exists", "transaction already exists in blockchain"},
+	{"txn-same-nonwitness-data-in-mempool", "duplicate", "bad-txns-inputs-missingorspent", "min relay fee not met",
+		"dust", "non-final", "insufficient priority"},
+	{""},
+}
+
+func (s *vsSUT) rejectMsg(m int) *wire.MsgReject {
+	wc, rs := (m-1)/8, (m-1)%8
+	codes, reasons := vsWireCodes[wc], vsReasons[rs]
+	return &wire.MsgReject{
+		Code:   codes[s.rng.Intn(len(codes))],
+		Reason: reasons[s.rng.Intn(len(reasons))],
+	}
+}
+
 var vsNextID int32
 
 // vsSetPeerID gives an unconnected btcd peer the id it would get from the
@@ -210,6 +243,7 @@ func (s *vsSUT) Step(act map[string]interface{}) (map[string]interface{}, interf
 	p := vsInt(act["p"])
 	kind, _ := act["kind"].(string)
 	code := vsInt(act["code"])
+	msg := vsInt(act["m"])
 	res := "ok"
 	switch op {
 	case "Msg":
@@ -229,8 +263,13 @@ func (s *vsSUT) Step(act map[string]interface{}) (map[string]interface{}, interf
 			_ = gd.AddInvVect(wire.NewInvVect(it, &s.hash))
 			m = gd
 		case "R":
-			sp := vsSpellings[code]
-			r := sp[s.rng.Intn(len(sp))]
+			var r wire.MsgReject
+			if msg >= 1 && msg <= 40 {
+				r = *s.rejectMsg(msg)
+			} else {
+				sp := vsSpellings[code]
+				r = sp[s.rng.Intn(len(sp))]
+			}
 			r.Cmd = wire.CmdTx
 			r.Hash = s.hash
 			m = &r
@@ -268,7 +307,7 @@ func (s *vsSUT) Step(act map[string]interface{}) (map[string]interface{}, interf
 		res = "skipped"
 	}
 	s.settle()
-	return map[string]interface{}{"op": op, "p": p, "kind": kind, "code": code, "res": res}, s.obs(), nil
+	return map[string]interface{}{"op": op, "p": p, "kind": kind, "code": code, "m": msg, "res": res}, s.obs(), nil
 }
 
 func (s *vsSUT) Close() {
@@ -284,6 +323,10 @@ func (s *vsSUT) Close() {
 func vsCtl(act map[string]interface{}) string {
 	op, _ := act["op"].(string)
 	kind, _ := act["kind"].(string)
+	if m := vsInt(act["m"]); m != 0 {
+		// a reject given as a concrete message: the class is the code's answer
+		return fmt.Sprintf("%s/%d/%s/m%d", op, vsInt(act["p"]), kind, m)
+	}
 	return fmt.Sprintf("%s/%d/%s/%d", op, vsInt(act["p"]), kind, vsInt(act["code"]))
 }
 
